@@ -42,7 +42,7 @@ def cases(ctx):
     rng = ctx.rng
     # dns/rdtypes directory vs. the model's table of types with a specific codec
     msgs = []
-    n_small = ctx.n(140, 5000)
+    n_small = ctx.n(110, 5000)
     for i in range(n_small):
         origin = None
         if rng.random() < 0.3:
@@ -85,7 +85,7 @@ def cases(ctx):
             yield "parse:mutated", [2, bytes(mw), origin, 16]
     # low-level Renderer sequences (TooBig caught by the caller, more records with the same owner
     # afterwards): the compression table must not keep entries of rolled-back octets
-    for i in range(ctx.n(120, 3000)):
+    for i in range(ctx.n(100, 3000)):
         origin = None if rng.random() < 0.8 else [b"o", b"example", b""]
         mid, flags, ms, ops = g.gen_rseq(rng, origin)
         yield "rseq", [7, origin, mid, flags, ms, ops]
